@@ -111,6 +111,9 @@ TypeOK == completed \subseteq AllLabels /\ executed \subseteq Pos
 
 \* observation for the replay (function of the other variables)
 VARIABLE obs
+\* `order` is a history variable (it multiplies the states by the number of completion orders): verdict configurations hide it with this VIEW;
+\* only the sensitivity configuration for GatherMode = "completion_order" needs it
+ViewWithoutOrder == <<executed, completed, ctx, read, obs>>
 ObsOf(ex, co) == [settled |-> SettledV(ex, co), pending |-> PendingV(ex, co), completed |-> co, finished |-> DoneV(<<>>, ex, co)]
 MCInit == Init /\ obs = ObsOf({}, {})
 MCNext == Next /\ obs' = ObsOf(executed', completed')
